@@ -247,41 +247,134 @@ Lemma query_v0_witnesses :
 Proof. repeat split; vm_compute; reflexivity. Qed.
 
 (* ------------------------------------------------------------------------------------------ *)
-(* (3) rANS 4x8 order-0 frequency table: witnesses of the two arithmetic panics (candidate F10)
-       and a non-trivial accepted table                                                        *)
+(* (3) rANS 4x8 order-0 frequency table + one decoded symbol                                   *)
 
 Definition zeros16 : list N := [0;0;128;0; 0;0;128;0; 0;0;128;0; 0;0;128;0; 0;0;0;0;0;0;0;0].
 
-Example rfreq_witness_sym_overflow :
-  (* 0xfe f=5, 0xff (adjacent) run length 1: F[255] := 1, then sym += 1 on 255 *)
-  rfreq ([254; 5; 255; 1; 1; 0] ++ zeros16) = Panic S_SYM_ADD.
+(* the code before the repairs: witnesses of the two arithmetic panics (finding F10) *)
+Example rfreq_v0_witness_sym_overflow :
+  rfreq_v0 ([254; 5; 255; 1; 1; 0] ++ zeros16) = Panic S_SYM_ADD.
 Proof. vm_compute. reflexivity. Qed.
-
-Example rfreq_witness_cumulative_overflow :
-  (* F['a'] = 65535 (itf8 c0 ff ff), F['c'] = 1 *)
-  rfreq ([97; 192; 255; 255; 99; 1; 0] ++ zeros16) = Panic S_CUM_ADD.
+Example rfreq_v0_witness_cumulative_overflow :
+  rfreq_v0 ([97; 192; 255; 255; 99; 1; 0] ++ zeros16) = Panic S_CUM_ADD.
 Proof. vm_compute. reflexivity. Qed.
-
+(* the same inputs are errors now *)
+Example rfreq_now_sym_overflow : rfreq ([254; 5; 255; 1; 1; 0] ++ zeros16) = Err.
+Proof. vm_compute. reflexivity. Qed.
+Example rfreq_now_cumulative_overflow : rfreq ([97; 192; 255; 255; 99; 1; 0] ++ zeros16) = Err.
+Proof. vm_compute. reflexivity. Qed.
 Example rfreq_ok_example :
   rfreq ([97; 5; 98; 2; 2; 1; 1; 114; 2; 0] ++ zeros16) = Ok tt.
 Proof. vm_compute. reflexivity. Qed.
-
 Example rfreq_err_example : rfreq [97; 5] = Err.
 Proof. vm_compute. reflexivity. Qed.
 
-(* a run never panics when it stays below symbol 255 *)
-Lemma read_run_total : forall n bs sym F,
-  sym + N.of_nat n <= 255 -> is_panic (read_run n bs sym F) = false.
+Lemma read_itf8_u16_no_panic : forall bs x, read_itf8_u16 bs <> Panic x.
 Proof.
-  induction n as [|n IH]; intros bs sym F H; cbn [read_run].
+  intros bs x R. unfold read_itf8_u16 in R.
+  repeat match type of R with
+         | match ?l with _ => _ end = _ => destruct l
+         | (if ?c then _ else _) = _ => destruct c
+         end; discriminate.
+Qed.
+
+Lemma read_run_total : forall n bs sym F, is_panic (read_run true n bs sym F) = false.
+Proof.
+  induction n as [|n IH]; intros bs sym F; cbn [read_run].
   - reflexivity.
   - destruct (read_itf8_u16 bs) as [[f bs1]| |x] eqn:R.
-    + destruct (sym =? 255) eqn:E; [lia|]. apply IH. lia.
+    + destruct (sym =? 255); [reflexivity|]. apply IH.
     + reflexivity.
-    + (* read_itf8_u16 never panics *)
-      exfalso. unfold read_itf8_u16 in R.
-      repeat match type of R with
-             | match ?l with _ => _ end = _ => destruct l
-             | (if ?c then _ else _) = _ => destruct c
-             end; discriminate.
+    + exfalso. exact (read_itf8_u16_no_panic _ _ R).
+Qed.
+
+Lemma read_freqs_total : forall fuel bs sym prev F, is_panic (read_freqs true fuel bs sym prev F) = false.
+Proof.
+  induction fuel as [|fu IH]; intros bs sym prev F; cbn [read_freqs].
+  - reflexivity.
+  - destruct (read_itf8_u16 bs) as [[f bs1]| |x] eqn:R.
+    + destruct bs1 as [|sym' bs2]; [reflexivity|].
+      destruct (sym' =? 0); [reflexivity|].
+      destruct (sym' - 1 =? prev).
+      * destruct bs2 as [|len bs3]; [reflexivity|].
+        pose proof (read_run_total (N.to_nat len) bs3 sym' (upd F (N.to_nat sym) f)) as HR.
+        destruct (read_run true (N.to_nat len) bs3 sym' (upd F (N.to_nat sym) f)) as [[[s2 F2] bs4]| |y].
+        -- apply IH.
+        -- reflexivity.
+        -- discriminate.
+      * apply IH.
+    + reflexivity.
+    + exfalso. exact (read_itf8_u16_no_panic _ _ R).
+Qed.
+
+Lemma cumulative_ok_bound : forall n F acc, acc + sumN F <= 65535 -> cumulative_ok n F acc = true.
+Proof.
+  induction n as [|n IH]; intros F acc H; cbn [cumulative_ok]; [reflexivity|].
+  destruct F as [|g r]; [reflexivity|]. cbn [sumN] in H.
+  destruct (acc + g <=? 65535) eqn:E; [|lia]. apply IH. lia.
+Qed.
+
+Lemma cum_at_le_sum : forall F k, cum_at F k <= sumN F.
+Proof.
+  induction F as [|g r IH]; intros k; destruct k; cbn [cum_at sumN]; try lia.
+  specialize (IH k). lia.
+Qed.
+
+Lemma nth_le_sum : forall F k, nth k F 0 <= sumN F.
+Proof.
+  induction F as [|g r IH]; intros k; destruct k; cbn [nth sumN]; try lia.
+  specialize (IH k). lia.
+Qed.
+
+Lemma cum_at_0 : forall F, cum_at F 0 = 0.
+Proof. destruct F; reflexivity. Qed.
+
+Lemma table_sym_inv : forall fuel F f sym, cum_at F sym <= f -> cum_at F (table_sym fuel F f sym) <= f.
+Proof.
+  induction fuel as [|fu IH]; intros F f sym H; cbn [table_sym]; [exact H|].
+  destruct (Nat.ltb sym 255 && (cum_at F (S sym) <=? f)) eqn:E; [|exact H].
+  apply andb_true_iff in E. destruct E as [_ E]. apply IH. lia.
+Qed.
+
+Lemma renorm_total : forall fuel s bs, is_panic (renorm fuel s bs) = false.
+Proof.
+  induction fuel as [|fu IH]; intros s bs; cbn [renorm]; [reflexivity|].
+  destruct (s <? 8388608); [|reflexivity]. destruct bs; [reflexivity|]. apply IH.
+Qed.
+
+Lemma le32_bound : forall b0 b1 b2 b3, le32 b0 b1 b2 b3 < 4294967296.
+Proof.
+  intros. unfold le32.
+  pose proof (N.mod_upper_bound b0 256). pose proof (N.mod_upper_bound b1 256).
+  pose proof (N.mod_upper_bound b2 256). pose proof (N.mod_upper_bound b3 256). lia.
+Qed.
+
+(* After the repairs the decoder never panics while reading the table and decoding a symbol:
+   for EVERY byte string. *)
+Theorem rfreq_total : forall bs, is_panic (rfreq bs) = false.
+Proof.
+  intros bs. unfold rfreq, rfreq_with, read_frequencies_with.
+  destruct bs as [|sym r]; [reflexivity|].
+  pose proof (read_freqs_total (S (length (sym :: r))) r sym sym (repeat 0 256)) as HF.
+  destruct (read_freqs true (S (length (sym :: r))) r sym sym (repeat 0 256)) as [[F rest]| |x];
+    [|reflexivity|discriminate].
+  cbn [andb]. destruct (4096 <? sumN F) eqn:Esum; [reflexivity|].
+  assert (Hs : sumN F <= 4096) by lia.
+  rewrite (cumulative_ok_bound 255 F 0) by lia.
+  do 16 (destruct rest as [|? rest]; [reflexivity|]).
+  set (s := le32 _ _ _ _).
+  pose proof (le32_bound n n0 n1 n2) as Hb. fold s in Hb.
+  set (f := s mod 4096). set (k := table_sym 255 F f 0).
+  pose proof (nth_le_sum F k) as Hfr.
+  pose proof (table_sym_inv 255 F f 0) as Hg. rewrite cum_at_0 in Hg. specialize (Hg ltac:(lia)). fold k in Hg.
+  assert (Hf : f < 4096) by (apply N.mod_upper_bound; lia).
+  assert (Hq : s / 4096 <= 1048575).
+  { assert (s / 4096 < 1048576); [apply N.div_lt_upper_bound; lia | lia]. }
+  assert (Ha : nth k F 0 * (s / 4096) <= 4096 * 1048575).
+  { apply N.mul_le_mono; lia. }
+  destruct (4294967295 <? nth k F 0 * (s / 4096)) eqn:E1; [lia|].
+  destruct (4294967295 <? nth k F 0 * (s / 4096) + f) eqn:E2; [lia|].
+  destruct (nth k F 0 * (s / 4096) + f <? cum_at F k) eqn:E3; [lia|].
+  pose proof (renorm_total (S (length rest)) (nth k F 0 * (s / 4096) + f - cum_at F k) rest) as HR.
+  destruct (renorm (S (length rest)) (nth k F 0 * (s / 4096) + f - cum_at F k) rest); try reflexivity; discriminate.
 Qed.
